@@ -364,3 +364,5 @@ func safeRead(m *mailbox.Machine, r io.Reader) (b []byte, err error) {
 	}()
 	return m.ReadMessage(r)
 }
+
+func ms(d int) time.Duration { return time.Duration(d) * time.Millisecond }
